@@ -8,6 +8,9 @@ claimed = {
  'C03': ("contract-based deductive verification: loop-invariant proof that CreateInBatches tiles the slice into consecutive, in-range, full batches (ghost cursor), each run on the block's connection, SMT-discharged",
          "Proof of lemma L3 of DESIGN 4/C03 for all slice lengths and batch sizes > 0: every row is in exactly one batch, in order, no batch larger than requested. The field-kind round trip itself (reflection setters/valuers, scanners, SQL engine) is outside the verifier's reach and NOT claimed.",
          "batchSize > 0 (API precondition, assumed); reflection value conversion, scan.go, the SQL engine; key back-fill (L2) and rectangular VALUES (L1) not yet under contract", "4/C03"),
+ 'C10': ("contract-based deductive verification (narrow): site obligations that the column-update methods execute with hooks skipped, K3 writers sweep that Statement.SkipHooks is only set by the derivation functions, SMT-discharged",
+         "Proof of one sentence of the property only: UpdateColumn/UpdateColumns run the update pipeline with SkipHooks set (so no hook and no tracked-time refresh, which ConvertToAssignments gates on !SkipHooks). The permission lemma on SelectAndOmitColumns and the select/omit sweeps over ConvertToAssignments are written but do not discharge within the solver budget; they are listed as undischarged, not claimed.",
+         "everything else in the property: Select/Omit narrowing, permission tags, Save - NOT decided (contracts written, undischarged)", "4/C10"),
  'C11': ("contract-based deductive verification: full K1 contract (quantified loop invariants, bounds safety) of schema.ToQueryValues; injectivity of the identity key decided by a bounded stand-in on the real utils.ToStringKey",
          "Proof, for all inputs, that the IN-list handed to the child query holds exactly the parents' key values row by row (single and composite keys). That different key tuples get different identity-map keys is string reasoning outside the verifier's reach: checked exhaustively on the real ToStringKey for all tuples of arity <= 2 (quick) / 3 (thorough) over an adversarial alphabet, labelled bounded.",
          "Find returns exactly the rows matching the IN list; reflection (field.ValueOf); preload's assignment loop and GetIdentityFieldValuesMap not yet under contract", "4/C11"),
